@@ -54,7 +54,7 @@ def cost(o):
     return 30
 
 
-def validate_balanced(ctx, module, obs, timeout=2400, nshards=None):
+def validate_balanced(ctx, module, obs, timeout=14000, nshards=None):
     """stateless events: longest-processing-time assignment to shards, each shard sorted by version (cache locality)"""
     n = min(nshards or vlib.NCPU, max(1, len(obs)))
     order = sorted(range(len(obs)), key=lambda i: -cost(obs[i]))
